@@ -6,7 +6,7 @@
     cleaner whatever happens to the storage between two of its calls, and what does not:
 
     - [deletes_warranted]: against ANY world (arbitrary responses to its calls: other writers, a
-      misbehaving back-end) a cleaning issues Delete(k) only if, earlier in this very run,
+      misbehaving back-end, any clock -- reading the clock is a call to the world) a cleaning issues Delete(k) only if, earlier in this very run,
       * k was listed in ocsp/, loaded, and what was loaded is unparseable or past NextUpdate, or
       * k is X.crt, X.key or X.json where X.crt was listed in a listed site folder of a listed
         issuer folder, loaded, and what was loaded parses and is expired for the grace period, or
@@ -29,12 +29,12 @@ Lemma apply_at_nil i s : apply_at [] i s = s.
 Proof. reflexivity. Qed.
 Lemma interfere_nil s : interfere [] s = s.
 Proof. destruct s; reflexivity. Qed.
-Lemma runi_nil e p : forall s, runi e [] p s = run e p s.
+Lemma runi_nil e clk p : forall s, runi e clk [] p s = run e clk p s.
 Proof.
   induction p as [r|a k IH]; intros s; cbn [runi run]; [reflexivity|].
-  rewrite interfere_nil. destruct (logs a); destruct (exec e a s) as [x s1]; apply IH.
+  rewrite interfere_nil. destruct (logs a); destruct (exec e clk a s) as [x s1]; apply IH.
 Qed.
-Theorem cleani_nil e o now s0 : cleani e [] o now s0 = clean e o now s0.
+Theorem cleani_nil e o clk s0 : cleani e [] o clk s0 = clean e o clk s0.
 Proof.
   unfold cleani, clean. destruct (do_lock e (St s0 [])) as [ok s1]. destruct ok; [|reflexivity].
   rewrite runi_nil, run_clean_locked_prog. reflexivity.
@@ -42,7 +42,7 @@ Qed.
 
 (** * What warrants a Delete *)
 Section Warrant.
-  Variables (o : opts) (now : Z).
+  Variable o : opts.
 
   (** earlier in this run, a listing of [p] returned [k] *)
   Definition listed (h : hist) (p k : key) : Prop :=
@@ -50,16 +50,18 @@ Section Warrant.
   (** earlier in this run, [a] was loaded and its bytes read as [c] *)
   Definition was_read (h : hist) (a : key) (c : cls) : Prop :=
     exists v, In (ALoad a, XLoad (LOk v c)) h.
+  (** earlier in this run, the clock was read and showed [t] *)
+  Definition was_now (h : hist) (t : Z) : Prop := In (ANow, XTime t) h.
   Definition related (a : key) : list key :=
     a :: map (fun x => trim_suffix clean_trim_suffix a ++ x) clean_related_suffixes.
 
   Inductive warranted (h : hist) (k : key) : Prop :=
-  | WStaple c : do_ocsp o = true -> listed h prefix_ocsp k -> was_read h k c ->
-      stale_staple now c = true -> warranted h k
-  | WCert ik sk a c : do_certs o = true ->
+  | WStaple c t : do_ocsp o = true -> listed h prefix_ocsp k -> was_read h k c ->
+      was_now h t -> stale_staple t c = true -> warranted h k
+  | WCert ik sk a c t : do_certs o = true ->
       listed h prefix_certs ik -> listed h ik sk -> listed h sk a ->
       seqb (path_ext a) clean_ext_crt = true -> was_read h a c ->
-      expired_cert now (grace o) c = true -> In k (related a) -> warranted h k
+      was_now h t -> expired_cert t (grace o) c = true -> In k (related a) -> warranted h k
   | WFolder ik h' : do_certs o = true -> listed h prefix_certs ik -> listed h ik k ->
       h = (AStat k, XStat StatDir) :: (AList k, XList (Some [])) :: h' -> warranted h k.
 
@@ -98,6 +100,8 @@ Section Warrant.
   Proof. intros Hk. exists ks. split; [left; reflexivity | exact Hk]. Qed.
   Lemma was_read_ext h1 h a c : hext h1 h -> was_read h a c -> was_read h1 a c.
   Proof. intros [h' ->] [v Hi]. exists v. apply in_or_app; right; exact Hi. Qed.
+  Lemma was_now_ext h1 h t : hext h1 h -> was_now h t -> was_now h1 t.
+  Proof. intros [h' ->] Hi. apply in_or_app; right; exact Hi. Qed.
 
   (** safe whatever is prepended to the history *)
   Definition K (h : hist) (p : prog) : Prop := forall h1, hext h1 h -> SP h1 p.
@@ -107,43 +111,48 @@ Section Warrant.
   Ltac nodel := let key := fresh in let E := fresh in intros key E; discriminate E.
 
   Lemma staples_safe kont : do_ocsp o = true -> forall ks h,
-    (forall k, In k ks -> listed h prefix_ocsp k) -> K h kont -> K h (staples_prog now ks kont).
+    (forall k, In k ks -> listed h prefix_ocsp k) -> K h kont -> K h (staples_prog ks kont).
   Proof.
     intros Ho. induction ks as [|k r IH]; intros h HL HK; cbn [staples_prog]; [exact HK|].
     assert (HLr : forall k', In k' r -> listed h prefix_ocsp k') by (intros k' H; apply HL; right; exact H).
     intros h1 E1. apply SP_do; [nodel|]. intros c.
     assert (Ec : hext ((ACancelled, c) :: h1) h) by (apply hext_cons; exact E1).
-    destruct c as [| | |[|]]; try exact (HK _ Ec).
+    destruct c as [| | |[|]|]; try exact (HK _ Ec).
     apply SP_do; [nodel|]. intros x.
     assert (Ex : hext ((ALoad k, x) :: (ACancelled, XBool false) :: h1) h) by (apply hext_cons; exact Ec).
-    destruct x as [[v c| |]| | |]; try exact (IH h HLr HK _ Ex).
-    destruct (stale_staple now c) eqn:St; [|exact (IH h HLr HK _ Ex)].
+    destruct x as [[v c| |]| | | |]; try exact (IH h HLr HK _ Ex).
+    apply SP_do; [nodel|]. intros tm.
+    assert (Et : hext ((ANow, tm) :: (ALoad k, XLoad (LOk v c)) :: (ACancelled, XBool false) :: h1) h)
+      by (apply hext_cons; exact Ex).
+    destruct tm as [| | | |t]; try exact (IH h HLr HK _ Et).
+    destruct (stale_staple t c) eqn:St; [|exact (IH h HLr HK _ Et)].
     apply SP_do.
-    - intros key E; injection E; intros <-. apply (WStaple _ _ c Ho).
-      + apply (listed_ext _ h); [exact Ex | apply HL; left; reflexivity].
-      + exists v. left; reflexivity.
+    - intros key E; injection E; intros <-. apply (WStaple _ _ c t Ho).
+      + apply (listed_ext _ h); [exact Et | apply HL; left; reflexivity].
+      + exists v. right; left; reflexivity.
+      + left; reflexivity.
       + exact St.
-    - intros d. apply (IH h HLr HK). apply hext_cons; exact Ex.
+    - intros d. apply (IH h HLr HK). apply hext_cons; exact Et.
   Qed.
 
   Lemma old_staples_safe kont : do_ocsp o = true -> (forall h, K h kont) ->
-    forall h, K h (old_staples_prog now kont).
+    forall h, K h (old_staples_prog kont).
   Proof.
     intros Ho HK h h1 E1. unfold old_staples_prog. apply SP_do; [nodel|]. intros x.
-    destruct x as [|[ks|]| |]; try (apply (HK _ _ (hext_refl _))).
+    destruct x as [|[ks|]| | |]; try (apply (HK _ _ (hext_refl _))).
     apply (staples_safe kont Ho ks _ (fun k => listed_here h1 prefix_ocsp ks k) (HK _) _ (hext_refl _)).
   Qed.
 
   Section CertFacts.
-    Variables (ik sk a : key) (c : cls) (h : hist).
+    Variables (ik sk a : key) (c : cls) (t : Z) (h : hist).
     Hypotheses (Ho : do_certs o = true) (L1 : listed h prefix_certs ik) (L2 : listed h ik sk)
                (L3 : listed h sk a) (Hext : seqb (path_ext a) clean_ext_crt = true)
-               (Hr : was_read h a c) (Hx : expired_cert now (grace o) c = true).
+               (Hr : was_read h a c) (Hn : was_now h t) (Hx : expired_cert t (grace o) c = true).
 
     Lemma cert_warrant h1 k : hext h1 h -> In k (related a) -> warranted h1 k.
     Proof.
-      intros E Hin. apply (WCert h1 k ik sk a c Ho); try assumption;
-        try (eapply listed_ext; eassumption). eapply was_read_ext; eassumption.
+      intros E Hin. apply (WCert h1 k ik sk a c t Ho); try assumption;
+        try (eapply listed_ext; eassumption); [eapply was_read_ext; eassumption | eapply was_now_ext; eassumption].
     Qed.
 
     Lemma related_safe kont : forall sufs, incl sufs clean_related_suffixes -> K h kont ->
@@ -159,7 +168,7 @@ Section Warrant.
 
   Lemma assets_safe kont ik sk : do_certs o = true -> forall assets h,
     listed h prefix_certs ik -> listed h ik sk -> (forall a, In a assets -> listed h sk a) ->
-    (forall b, K h (kont b)) -> K h (assets_prog now (grace o) assets kont).
+    (forall b, K h (kont b)) -> K h (assets_prog (grace o) assets kont).
   Proof.
     intros Ho. induction assets as [|a r IH]; intros h L1 L2 L3 HK; cbn [assets_prog]; [apply HK|].
     assert (L3r : forall a', In a' r -> listed h sk a') by (intros a' H; apply L3; right; exact H).
@@ -167,35 +176,40 @@ Section Warrant.
     apply negb_false_iff in Ext.
     intros h1 E1. apply SP_do; [nodel|]. intros x.
     assert (Ex : hext ((ALoad a, x) :: h1) h) by (apply hext_cons; exact E1).
-    destruct x as [[v c| |]| | |]; try exact (HK true _ Ex).
+    destruct x as [[v c| |]| | | |]; try exact (HK true _ Ex).
     destruct (as_cert c) eqn:Ac; [|exact (HK true _ Ex)].
-    destruct (expired_cert now (grace o) c) eqn:Xp; [|exact (IH h L1 L2 L3r HK _ Ex)].
-    set (hx := (ALoad a, XLoad (LOk v c)) :: h1) in *.
-    assert (R : was_read hx a c) by (exists v; left; reflexivity).
+    apply SP_do; [nodel|]. intros tm.
+    assert (Et : hext ((ANow, tm) :: (ALoad a, XLoad (LOk v c)) :: h1) h) by (apply hext_cons; exact Ex).
+    destruct tm as [| | | |t]; try exact (HK true _ Et).
+    destruct (expired_cert t (grace o) c) eqn:Xp; [|exact (IH h L1 L2 L3r HK _ Et)].
+    clear Ex. rename Et into Ex.
+    set (hx := (ANow, XTime t) :: (ALoad a, XLoad (LOk v c)) :: h1) in *.
+    assert (R : was_read hx a c) by (exists v; right; left; reflexivity).
+    assert (Nw : was_now hx t) by (left; reflexivity).
     assert (M1 := listed_ext _ _ _ _ Ex L1). assert (M2 := listed_ext _ _ _ _ Ex L2).
     assert (M3 := listed_ext _ _ _ _ Ex (L3 a (or_introl eq_refl))).
     apply SP_do.
     - intros key E; injection E; intros <-.
-      apply (cert_warrant ik sk a c hx Ho M1 M2 M3 Ext R Xp); [apply hext_refl | left; reflexivity].
+      apply (cert_warrant ik sk a c t hx Ho M1 M2 M3 Ext R Nw Xp); [apply hext_refl | left; reflexivity].
     - intros d.
-      apply (related_safe ik sk a c hx Ho M1 M2 M3 Ext R Xp _ _ (incl_refl _)); [|apply hext_cons, hext_refl].
+      apply (related_safe ik sk a c t hx Ho M1 M2 M3 Ext R Nw Xp _ _ (incl_refl _)); [|apply hext_cons, hext_refl].
       apply (K_ext _ h); [exact Ex|]. exact (IH h L1 L2 L3r HK).
   Qed.
 
   Lemma sites_safe kont ik : do_certs o = true -> forall sites h,
     listed h prefix_certs ik -> (forall sk, In sk sites -> listed h ik sk) ->
-    (forall b, K h (kont b)) -> K h (sites_prog now (grace o) sites kont).
+    (forall b, K h (kont b)) -> K h (sites_prog (grace o) sites kont).
   Proof.
     intros Ho. induction sites as [|sk r IH]; intros h L1 L2 HK; cbn [sites_prog]; [apply HK|].
     assert (L2r : forall s', In s' r -> listed h ik s') by (intros s' H; apply L2; right; exact H).
-    assert (Rest : K h (sites_prog now (grace o) r kont)) by exact (IH h L1 L2r HK).
+    assert (Rest : K h (sites_prog (grace o) r kont)) by exact (IH h L1 L2r HK).
     intros h1 E1. apply SP_do; [nodel|]. intros c.
     assert (Ec : hext ((ACancelled, c) :: h1) h) by (apply hext_cons; exact E1).
-    destruct c as [| | |[|]]; try exact (HK true _ Ec).
+    destruct c as [| | |[|]|]; try exact (HK true _ Ec).
     apply SP_do; [nodel|]. intros x.
     set (hx := (AList sk, x) :: (ACancelled, XBool false) :: h1).
     assert (Ex : hext hx h) by (apply hext_cons; exact Ec).
-    destruct x as [|[assets|]| |]; try exact (Rest _ Ex).
+    destruct x as [|[assets|]| | |]; try exact (Rest _ Ex).
     assert (M1 := listed_ext _ _ _ _ Ex L1).
     assert (M2 := listed_ext _ _ _ _ Ex (L2 sk (or_introl eq_refl))).
     apply (assets_safe _ ik sk Ho assets hx M1 M2 (fun a => listed_here _ sk assets a)); [|apply hext_refl].
@@ -203,10 +217,10 @@ Section Warrant.
     destruct ab; [exact (HK true _ E2h)|].
     apply SP_do; [nodel|]. intros y.
     assert (Ey : hext ((AList sk, y) :: h2) h) by (apply hext_cons; exact E2h).
-    destruct y as [|[[|y0 ys]|]| |]; try exact (Rest _ Ey).
+    destruct y as [|[[|y0 ys]|]| | |]; try exact (Rest _ Ey).
     apply SP_do; [nodel|]. intros z.
     assert (Ez : hext ((AStat sk, z) :: (AList sk, XList (Some [])) :: h2) h) by (apply hext_cons; exact Ey).
-    destruct z as [| |[| |]|]; try exact (Rest _ Ez).
+    destruct z as [| |[| |]| |]; try exact (Rest _ Ez).
     apply SP_do.
     - intros key E; injection E; intros <-. apply (WFolder _ _ ik h2 Ho).
       + exact (listed_ext _ _ _ _ Ez L1).
@@ -214,20 +228,20 @@ Section Warrant.
       + reflexivity.
     - intros d. assert (Ed : hext ((ADelete sk, d) :: (AStat sk, XStat StatDir) :: (AList sk, XList (Some [])) :: h2) h)
         by (apply hext_cons; exact Ez).
-      destruct d as [| | |[|]]; try exact (HK true _ Ed). exact (Rest _ Ed).
+      destruct d as [| | |[|]|]; try exact (HK true _ Ed). exact (Rest _ Ed).
   Qed.
 
   Lemma issuers_safe kont : do_certs o = true -> forall iss h,
     (forall ik, In ik iss -> listed h prefix_certs ik) ->
-    (forall b, K h (kont b)) -> K h (issuers_prog now (grace o) iss kont).
+    (forall b, K h (kont b)) -> K h (issuers_prog (grace o) iss kont).
   Proof.
     intros Ho. induction iss as [|ik r IH]; intros h L1 HK; cbn [issuers_prog]; [apply HK|].
     assert (L1r : forall i', In i' r -> listed h prefix_certs i') by (intros i' H; apply L1; right; exact H).
-    assert (Rest : K h (issuers_prog now (grace o) r kont)) by exact (IH h L1r HK).
+    assert (Rest : K h (issuers_prog (grace o) r kont)) by exact (IH h L1r HK).
     intros h1 E1. apply SP_do; [nodel|]. intros x.
     set (hx := (AList ik, x) :: h1).
     assert (Ex : hext hx h) by (apply hext_cons; exact E1).
-    destruct x as [|[sites|]| |]; try exact (Rest _ Ex).
+    destruct x as [|[sites|]| | |]; try exact (Rest _ Ex).
     apply (sites_safe _ ik Ho sites hx (listed_ext _ _ _ _ Ex (L1 ik (or_introl eq_refl)))
              (fun s => listed_here _ ik sites s)); [|apply hext_refl].
     intros ab h2 E2. assert (E2h : hext h2 h) by exact (hext_trans _ _ _ E2 Ex).
@@ -235,41 +249,40 @@ Section Warrant.
   Qed.
 
   Lemma expired_certs_safe kont : do_certs o = true -> (forall h, K h kont) ->
-    forall h, K h (expired_certs_prog now (grace o) kont).
+    forall h, K h (expired_certs_prog (grace o) kont).
   Proof.
     intros Ho HK h h1 E1. unfold expired_certs_prog. apply SP_do; [nodel|]. intros x.
-    destruct x as [|[iss|]| |]; try (apply (HK _ _ (hext_refl _))).
+    destruct x as [|[iss|]| | |]; try (apply (HK _ _ (hext_refl _))).
     apply (issuers_safe _ Ho iss _ (fun i => listed_here h1 prefix_certs iss i) (fun _ => HK _) _ (hext_refl _)).
   Qed.
 
-  Lemma work_safe h : K h (work_prog o now).
+  Lemma record_safe h : K h (record_prog o).
+  Proof.
+    intros h1 _. unfold record_prog. apply SP_do; [nodel|]. intros [| | | |t]; try apply SP_done.
+    apply SP_do; [nodel|]. intros [| | |[|]|]; apply SP_done.
+  Qed.
+  Lemma work_safe h : K h (work_prog o).
   Proof.
     unfold work_prog. cbn zeta.
-    assert (P3 : forall h, K h (Do (AStore clean_storage_key (written now o))
-                                  (fun b => match b with XBool true => Done RNil | _ => Done RErrStore end))).
-    { intros h0 h1 _. apply SP_do; [nodel|]. intros [| | |[|]]; apply SP_done. }
-    assert (P2 : forall h, K h (if do_certs o then expired_certs_prog now (grace o)
-        (Do (AStore clean_storage_key (written now o))
-            (fun b => match b with XBool true => Done RNil | _ => Done RErrStore end))
-      else Do (AStore clean_storage_key (written now o))
-            (fun b => match b with XBool true => Done RNil | _ => Done RErrStore end))).
-    { intros h0. destruct (do_certs o) eqn:Hc; [apply expired_certs_safe; assumption | apply P3]. }
+    assert (P2 : forall h, K h (if do_certs o then expired_certs_prog (grace o) (record_prog o) else record_prog o)).
+    { intros h0. destruct (do_certs o) eqn:Hc; [apply expired_certs_safe; [assumption | apply record_safe] | apply record_safe]. }
     destruct (do_ocsp o) eqn:Ho; [apply old_staples_safe; assumption | apply P2].
   Qed.
 
-  Lemma clean_locked_safe h : SP h (clean_locked_prog o now).
+  Lemma clean_locked_safe h : SP h (clean_locked_prog o).
   Proof.
     unfold clean_locked_prog. destruct (0 <? interval o); [|exact (work_safe h h (hext_refl _))].
     apply SP_do; [nodel|]. intros x.
-    destruct x as [[v c| |]| | |]; try apply SP_done; [|exact (work_safe _ _ (hext_refl _))].
+    destruct x as [[v c| |]| | | |]; try apply SP_done; [|exact (work_safe _ _ (hext_refl _))].
     destruct (as_clean c) as [[ts i]|]; [|apply SP_done].
-    destruct (cmp_holds clean_interval_cmp (now - ts) (interval o)); [apply SP_done | exact (work_safe _ _ (hext_refl _))].
+    apply SP_do; [nodel|]. intros [| | | |t]; try apply SP_done.
+    destruct (cmp_holds clean_interval_cmp (t - ts) (interval o)); [apply SP_done | exact (work_safe _ _ (hext_refl _))].
   Qed.
 
-  (** whatever the world answers: every Delete of a cleaning is warranted by what the cleaner
-      itself has read earlier in this run *)
+  (** whatever the world answers -- to the storage calls and to the readings of the clock --
+      every Delete of a cleaning is warranted by what the cleaner itself has read earlier in this run *)
   Theorem deletes_warranted W (wexec : act -> W -> resp * W) w :
-    all_warranted (fst (wrun W wexec (clean_locked_prog o now) w [])).
+    all_warranted (fst (wrun W wexec (clean_locked_prog o) w [])).
   Proof. apply SP_sound; [apply clean_locked_safe | exact I]. Qed.
 
   (** * On a storage that honours the List contract: the keys a cleaner can address *)
@@ -287,7 +300,7 @@ Section Warrant.
   Lemma warranted_namespace h k : honest h -> warranted h k -> in_clean_namespace k.
   Proof.
     destruct consts_ok as (Ec & Et & Er & _ & _ & _ & _ & _ & Epc & Epo).
-    intros Hh [c _ L _ _|ik sk a c _ L1 L2 L3 Ext _ _ Hin|ik h' _ L1 L2 _].
+    intros Hh [c t _ L _ _ _|ik sk a c t _ L1 L2 L3 Ext _ _ _ Hin|ik h' _ L1 L2 _].
     - left. rewrite <- Epo. exact (listed_child _ _ _ Hh L).
     - right; left. exists a.
       assert (Sf : site_folder sk).
@@ -314,13 +327,13 @@ End Warrant.
 
 (** * A cleaning with foreign operations on an honest storage *)
 Section Foreign.
-  Variables (e : env) (fs : list (nat * fop)).
-  Definition iexec (a : act) (s : st) : resp * st := exec e a (if logs a then interfere fs s else s).
+  Variables (e : env) (clk : nat -> Z) (fs : list (nat * fop)).
+  Definition iexec (a : act) (s : st) : resp * st := exec e clk a (if logs a then interfere fs s else s).
 
-  Lemma runi_wrun p : forall s h, snd (runi e fs p s) = snd (wrun st iexec p s h).
+  Lemma runi_wrun p : forall s h, snd (runi e clk fs p s) = snd (wrun st iexec p s h).
   Proof.
     induction p as [r|a k IH]; intros s h; cbn [runi wrun]; [reflexivity|].
-    unfold iexec. destruct (exec e a (if logs a then interfere fs s else s)) as [x s1]. apply IH.
+    unfold iexec. destruct (exec e clk a (if logs a then interfere fs s else s)) as [x s1]. apply IH.
   Qed.
 
   (** one call: the log grows by at most one event, a Delete event only for [ADelete];
@@ -333,7 +346,7 @@ Section Foreign.
     unfold iexec. set (s' := if logs a then interfere fs s else s).
     assert (El : lg s' = lg s) by (subst s'; destruct (logs a); reflexivity).
     rewrite <- El. clearbody s'. clear El.
-    destruct a as [k|k|k|k|k n|]; cbn [exec].
+    destruct a as [k|k|k|k|k n| |]; cbn [exec].
     - destruct (do_load e k s') as [r s2] eqn:D. intros H; injection H; intros <- <-.
       split; [|discriminate]. right.
       unfold do_load in D. destruct (faulty e s'); [|destruct (lookup (sto s') k) as [[? ?|]|]; try destruct (is_dir _ _)];
@@ -354,6 +367,7 @@ Section Foreign.
       split; [|discriminate]. right.
       unfold do_store in D. destruct (faulty e s'); [|destruct (is_dir _ _)]; injection D; intros <- _;
         eexists; (split; [reflexivity | discriminate]).
+    - intros H; injection H; intros <- <-. split; [left; reflexivity | discriminate].
     - intros H; injection H; intros <- <-. split; [left; reflexivity | discriminate].
   Qed.
 
@@ -381,22 +395,22 @@ Section Foreign.
   (** every Delete call of a cleaning -- with any foreign operations applied at any of its calls,
       any storage content, fault plan, cancellation point -- addresses a key of the cleaned
       namespaces *)
-  Theorem cleani_deletes_in_namespace o now s0 ev :
-    In ev (lg (snd (cleani e fs o now s0))) -> ev_kind ev = KDelete -> in_clean_namespace (ev_key ev).
+  Theorem cleani_deletes_in_namespace o s0 ev :
+    In ev (lg (snd (cleani e fs o clk s0))) -> ev_kind ev = KDelete -> in_clean_namespace (ev_key ev).
   Proof.
     unfold cleani. destruct (do_lock e (St s0 [])) as [ok s1] eqn:L.
     assert (L1 : forall ev, In ev (lg s1) -> ev_kind ev <> KDelete).
     { unfold do_lock in L. destruct (faulty e (St s0 [])); injection L; intros <- _; cbn;
         intros ev' [<-|[]]; discriminate. }
     destruct ok; [|intros Hin Hk; exfalso; exact (L1 ev Hin Hk)].
-    destruct (runi e fs (clean_locked_prog o now) s1) as [r s2] eqn:R. cbn [snd].
-    assert (E2 : s2 = snd (wrun st iexec (clean_locked_prog o now) s1 [])).
+    destruct (runi e clk fs (clean_locked_prog o) s1) as [r s2] eqn:R. cbn [snd].
+    assert (E2 : s2 = snd (wrun st iexec (clean_locked_prog o) s1 [])).
     { rewrite <- (runi_wrun _ s1 []). rewrite R. reflexivity. }
     intros Hin Hk. unfold do_unlock in Hin. cbn [lg logged] in Hin. destruct Hin as [<-|Hin]; [discriminate|].
     assert (J0 : J (lg s1) s1 []).
     { split; [intros p ks []|]. intros ev' H _. left; exact H. }
-    pose proof (wrun_J (lg s1) (clean_locked_prog o now) s1 [] J0) as [Hh Hd].
+    pose proof (wrun_J (lg s1) (clean_locked_prog o) s1 [] J0) as [Hh Hd].
     rewrite <- E2 in Hd. destruct (Hd ev Hin Hk) as [H|[x H]]; [exfalso; exact (L1 ev H Hk)|].
-    exact (all_warranted_in o now _ Hh (deletes_warranted o now st iexec s1) _ _ H).
+    exact (all_warranted_in o _ Hh (deletes_warranted o st iexec s1) _ _ H).
   Qed.
 End Foreign.
